@@ -173,11 +173,14 @@ func corsJob(raw json.RawMessage) (any, error) {
 	t.Handle("/r", "hr", nil, "GET")
 	t.Handle("/w", "hw", nil, "GET", "POST")
 	anyHeaders := contains(c.Headers, "*")
-	for _, q := range corsRequests(false) {
+	for _, q := range corsRequests(it.Prop == "C05") {
 		o := hv.Serve(r, q.req())
 		out.Evals++
 		if o.Paniced {
-			rep(it.Prop+".no-panic", "panic", q, fmt.Sprintf("panic: %v", o.Panic), "no panic")
+			rep(it.Prop+".no-panic", "panic:cors:"+shortPanic(o.Panic), q, fmt.Sprintf("panic: %v", o.Panic), "no panic")
+			continue
+		}
+		if it.Prop == "C05" {
 			continue
 		}
 		h := o.Header
